@@ -11,7 +11,7 @@
    Hashes are arbitrary functions [H].                                        *)
 From Coq Require Import ZArith List Bool.
 From Kyber Require Import CurveRef.Field CurveRef.Edwards CurveRef.Weierstrass
-  Embed.EmbedSM Embed.EmbedProofs Embed.EmbedBytes Embed.EmbedGroups Embed.EmbedEd Embed.EmbedXmd.
+  Embed.EmbedSM Embed.EmbedProofs Embed.EmbedBytes Embed.EmbedGroups Embed.EmbedEd Embed.EmbedXmd Embed.EmbedNV.
 Import ListNotations.
 Local Open Scope Z_scope.
 
@@ -232,15 +232,8 @@ Print Assumptions C17_xmd_rfc_within_bound.
    expand_message_xmd answers *)
 Example C17_nonvacuous :
   fops_ok (zq_ops ed_p) ed_p /\ fops_ok (zq_ops (w_p p256)) (w_p p256) /\
-  (let O := zq_ops (w_p bn256) in
-   let s := map (fun i => (Z.of_nat i * 37 + 11) mod 256) (seq 0 200) in
-   match bn256_embed O 6 (Some [104; 105; 33]) s with
-   | Some (P, rest) => bn256_data P = Some [104; 105; 33] /\ (0 < length rest < 200)%nat
-   | None => False
-   end) /\
-  xmd_kyber (fun x => firstn 32 (x ++ repeat 0 32)) 32 64 [1; 2] [3] 40 <> None.
+  C17_nv_embed = true /\ C17_nv_xmd = true.
 Proof.
   split; [apply zq_ops_ok; reflexivity|]. split; [apply zq_ops_ok; reflexivity|].
-  split; [vm_compute; split; [reflexivity|split; apply Nat.leb_le; reflexivity]|].
-  vm_compute. discriminate.
+  split; vm_compute; reflexivity.
 Qed.
